@@ -259,6 +259,278 @@ def exit_behaviour():
     return out
 
 
+# ------------------------------------------------------------------ order sources (hash randomisation)
+# "... regardless of hash randomisation": the places where the order of a result can come from something
+# other than the input — the iteration order of a set / frozenset (per-process string hash, object
+# addresses), an enumeration of a directory, id() / hash() values, clocks and random numbers.  Every
+# such construct of every rpft module is listed with its EXPOSURE, decided from the syntax tree:
+#   member   the value is only searched, measured, compared, updated, or sorted / min / max WITHOUT a key: no order can leave it
+#   iter     it is iterated / converted to a sequence / popped: its order can reach a result
+#   escape   it is handed to other code (argument, return value, stored in a container)
+#   value    (id / hash / clock / random) the value itself is not a function of the input
+# A set bound to a local name, to a parameter (as its default) or to `self.x` gets the worst exposure
+# of the uses of that name in the function / of that attribute in the class.
+SET_CTORS = {"set", "frozenset"}
+SET_METHODS_SET = {"union", "intersection", "difference", "symmetric_difference", "copy"}
+SET_METHODS_MEMBER = {"add", "update", "discard", "remove", "clear", "issubset", "issuperset", "isdisjoint", "__contains__",
+                      "intersection_update", "difference_update", "symmetric_difference_update"} | SET_METHODS_SET
+ORDER_FREE_CALLS = {"len", "bool", "any", "all", "set", "frozenset", "isinstance", "type"}
+ORDER_FREE_WITHOUT_KEY = {"min", "max", "sorted"}     # with key=..: ties are resolved by the iteration order
+SEQ_CALLS = {"list", "tuple", "iter", "next", "enumerate", "zip", "map", "filter", "reversed", "dict", "OrderedDict", "str", "repr", "print"}
+SEQ_METHODS = {"join", "extend", "fromkeys", "writerow", "writerows", "format"}
+DIR_CALLS = {"listdir", "scandir", "walk", "glob", "iglob", "rglob", "iterdir"}
+ENTROPY = {("random", None), ("secrets", None), ("time", "time"), ("time", "time_ns"), ("time", "monotonic"), ("time", "perf_counter"),
+           ("datetime", "now"), ("datetime", "utcnow"), ("datetime", "today"), ("os", "urandom"), ("os", "getpid"),
+           ("uuid", "uuid1"), ("uuid", "uuid4")}
+RANK = {"member": 0, "escape": 1, "iter": 2, "value": 2}
+
+
+def worst(a, b):
+    return a if RANK[a] >= RANK[b] else b
+
+
+class OrderScan:
+    def __init__(self, modname, tree):
+        self.mod, self.tree = modname, tree
+        self.parent = {}
+        for n in ast.walk(tree):
+            for c in ast.iter_child_nodes(n):
+                self.parent[id(c)] = n
+        # module aliases: local name -> dotted origin
+        self.alias = {}
+        for n in ast.walk(tree):
+            if isinstance(n, ast.Import):
+                for a in n.names:
+                    self.alias[(a.asname or a.name).split(".")[0]] = a.name if a.asname else a.name.split(".")[0]
+            elif isinstance(n, ast.ImportFrom) and n.module:
+                for a in n.names:
+                    self.alias[a.asname or a.name] = n.module + "." + a.name
+        self.out = []
+
+    # ---- scopes
+    def scope_of(self, node):
+        """(qualname, function node or None, class node or None)"""
+        names, fn, cls = [], None, None
+        n = self.parent.get(id(node))
+        while n is not None:
+            if isinstance(n, (ast.FunctionDef, ast.AsyncFunctionDef, ast.Lambda)):
+                if fn is None and not isinstance(n, ast.Lambda):
+                    fn = n
+                if not isinstance(n, ast.Lambda):
+                    names.append(n.name)
+            elif isinstance(n, ast.ClassDef):
+                if cls is None:
+                    cls = n
+                names.append(n.name)
+            n = self.parent.get(id(n))
+        return self.mod + ":" + (".".join(reversed(names)) or "<module>"), fn, cls
+
+    # ---- what is a set-valued expression
+    def is_set_expr(self, n):
+        if isinstance(n, (ast.Set, ast.SetComp)):
+            return True
+        if isinstance(n, ast.Call):
+            if isinstance(n.func, ast.Name) and n.func.id in SET_CTORS:
+                return True
+            if isinstance(n.func, ast.Attribute) and n.func.attr in SET_METHODS_SET - {"copy"}:
+                return True
+        if isinstance(n, ast.BinOp) and isinstance(n.op, (ast.BitOr, ast.BitAnd, ast.Sub, ast.BitXor)):
+            return self.is_set_expr(n.left) or self.is_set_expr(n.right)
+        return False
+
+    def dotted(self, f):
+        parts = []
+        while isinstance(f, ast.Attribute):
+            parts.append(f.attr)
+            f = f.value
+        if isinstance(f, ast.Name):
+            parts.append(self.alias.get(f.id, f.id))
+            return ".".join(reversed(parts))
+        return None
+
+    # ---- exposure of the value of expression `n`, from the way its parent uses it
+    def exposure(self, n, depth=0):
+        p = self.parent.get(id(n))
+        if p is None or depth > 6:
+            return "escape"
+        if isinstance(p, ast.Call):
+            if n is p.func:
+                return "member"
+            if isinstance(p.func, ast.Name) and n in p.args:
+                if p.func.id in ORDER_FREE_CALLS:
+                    return "member"
+                if p.func.id in ORDER_FREE_WITHOUT_KEY:
+                    return "iter" if any(kw.arg == "key" for kw in p.keywords) else "member"
+                if p.func.id in SEQ_CALLS:
+                    return "iter"
+            if isinstance(p.func, ast.Attribute) and n in p.args and p.func.attr in SEQ_METHODS:
+                return "iter"
+            if isinstance(p.func, ast.Attribute) and n in p.args and p.func.attr in SET_METHODS_MEMBER:
+                return "member"      # other.update(n), other.issubset(n) ...
+            return "escape"
+        if isinstance(p, ast.Attribute) and p.value is n:
+            gp = self.parent.get(id(p))
+            if isinstance(gp, ast.Call) and gp.func is p:
+                if p.attr in SET_METHODS_MEMBER:
+                    return "member"
+                if p.attr == "pop":
+                    return "iter"
+            return "escape"
+        if isinstance(p, ast.Compare):
+            return "member"
+        if isinstance(p, (ast.For, ast.AsyncFor)) and p.iter is n:
+            return "iter"
+        if isinstance(p, ast.comprehension) and p.iter is n:
+            owner = self.parent.get(id(p))
+            if isinstance(owner, ast.SetComp):
+                return "member"          # the result is a set again (listed on its own)
+            return "iter"
+        if isinstance(p, ast.Starred):
+            return "iter"
+        if isinstance(p, (ast.If, ast.While)) and p.test is n:
+            return "member"
+        if isinstance(p, ast.IfExp):
+            return "member" if p.test is n else self.exposure(p, depth + 1)
+        if isinstance(p, ast.UnaryOp) and isinstance(p.op, ast.Not):
+            return "member"
+        if isinstance(p, ast.BoolOp):
+            return self.exposure(p, depth + 1)
+        if isinstance(p, ast.BinOp):
+            return "member" if self.is_set_expr(p) else "escape"
+        if isinstance(p, ast.Expr):
+            return "member"
+        if isinstance(p, ast.AugAssign):
+            return "member" if p.value is n else "escape"
+        if isinstance(p, (ast.Assign, ast.AnnAssign)) and p.value is n:
+            tgts = p.targets if isinstance(p, ast.Assign) else [p.target]
+            e = "member"
+            for t in tgts:
+                e = worst(e, self.bound_exposure(t, p))
+            return e
+        if isinstance(p, ast.arguments):
+            # default value of a parameter: the uses of that parameter in the function
+            fn = self.parent.get(id(p))
+            pos = p.posonlyargs + p.args
+            name = None
+            if n in p.defaults:
+                name = pos[len(pos) - len(p.defaults) + p.defaults.index(n)].arg
+            elif n in p.kw_defaults:
+                name = p.kwonlyargs[p.kw_defaults.index(n)].arg
+            if name is None or isinstance(fn, ast.Lambda):
+                return "escape"
+            return self.name_uses(fn, name, skip=None)
+        return "escape"
+
+    def bound_exposure(self, target, stmt):
+        _, fn, cls = self.scope_of(stmt)
+        if isinstance(target, ast.Name):
+            scope = fn if fn is not None else self.tree
+            if fn is None:
+                return "escape"          # module / class level name: visible to everybody
+            return self.name_uses(scope, target.id, skip=target)
+        if isinstance(target, ast.Attribute) and isinstance(target.value, ast.Name) and target.value.id == "self" and cls is not None:
+            e = "member"
+            for n in ast.walk(cls):
+                if isinstance(n, ast.Attribute) and n.attr == target.attr and isinstance(n.value, ast.Name) and n.value.id == "self" \
+                        and isinstance(n.ctx, ast.Load):
+                    e = worst(e, self.exposure(n))
+            return e
+        return "escape"
+
+    def name_uses(self, scope, name, skip):
+        e = "member"
+        for n in ast.walk(scope):
+            if isinstance(n, ast.Name) and n.id == name and isinstance(n.ctx, ast.Load) and n is not skip:
+                e = worst(e, self.exposure(n, 3))
+        return e
+
+    # ---- the scan
+    def run(self):
+        for n in ast.walk(self.tree):
+            q = self.scope_of(n)[0]
+            par = self.parent.get(id(n))
+            if self.is_set_expr(n) and not (isinstance(par, ast.BinOp) and self.is_set_expr(par)):
+                kind = "set"
+                self.out.append((q, kind, self.exposure(n), n.lineno))
+            elif isinstance(n, ast.Call):
+                f = n.func
+                nm = f.attr if isinstance(f, ast.Attribute) else f.id if isinstance(f, ast.Name) else None
+                d = self.dotted(f) or ""
+                root, leaf = d.split(".")[0], d.split(".")[-1]
+                if nm in DIR_CALLS:
+                    self.out.append((q, "dirlist:" + nm, self.exposure(n), n.lineno))
+                elif isinstance(f, ast.Name) and f.id in ("id", "hash"):
+                    self.out.append((q, "identity:" + f.id, "value", n.lineno))
+                elif any(root == m and (a is None or leaf == a) for m, a in ENTROPY) and d != root:
+                    self.out.append((q, "entropy:" + d, "value", n.lineno))
+                for kw in n.keywords:
+                    if kw.arg == "key" and isinstance(kw.value, ast.Name) and kw.value.id in ("id", "hash"):
+                        self.out.append((q, "identity:key=" + kw.value.id, "value", n.lineno))
+        return self.out
+
+
+SCAN_SELFTEST_SRC = """
+import os, random, time
+def f(xs, ys):
+    a = set(xs)
+    if "x" in a: pass
+    b = set(ys)
+    for y in b: print(y)
+    c = list(set(xs))
+    d = sorted(set(xs))
+    e = max(set(xs), key=len)
+    g = {x for x in set(xs)}
+    h = set(xs) & set(ys)
+    k = ",".join({1, 2})
+    for n in os.listdir("."): pass
+    t = time.time()
+    r = random.random()
+    s = sorted(xs, key=id)
+    z = frozenset(xs)
+    return g, h, helper(z)
+class C:
+    def __init__(self):
+        self.seen = set()
+        self.todo = set()
+    def m(self, x):
+        if x in self.seen: return
+        self.seen.add(x)
+        while self.todo: x = self.todo.pop()
+def p(x, acc=set()):
+    acc.add(x)
+    return len(acc)
+"""
+SCAN_SELFTEST_EXPECTED = [
+    ("m:C.__init__", "set", "iter", 23), ("m:C.__init__", "set", "member", 22), ("m:f", "dirlist:listdir", "iter", 14),
+    ("m:f", "entropy:random.random", "value", 16), ("m:f", "entropy:time.time", "value", 15), ("m:f", "identity:key=id", "value", 17),
+    ("m:f", "set", "escape", 11), ("m:f", "set", "escape", 12), ("m:f", "set", "escape", 18), ("m:f", "set", "iter", 6),
+    ("m:f", "set", "iter", 8), ("m:f", "set", "iter", 10), ("m:f", "set", "iter", 13), ("m:f", "set", "member", 4),
+    ("m:f", "set", "member", 9), ("m:f", "set", "member", 11), ("m:p", "set", "member", 28)]
+
+
+def scan_selftest():
+    """fail closed when the scanner itself no longer classifies a fixed snippet as reviewed (e.g. another ast on a new Python)"""
+    got = sorted(OrderScan("m", ast.parse(SCAN_SELFTEST_SRC)).run())
+    if got != sorted(SCAN_SELFTEST_EXPECTED):
+        raise Refuse(f"c13 order-source scanner self-test: {got} != {sorted(SCAN_SELFTEST_EXPECTED)}")
+
+
+def order_sources(mods):
+    scan_selftest()
+    out = []
+    for mod in mods:
+        try:
+            src = inspect.getsource(mod)
+        except (OSError, TypeError):
+            continue              # a package __init__ without source
+        try:
+            tree = ast.parse(src)
+        except SyntaxError as e:
+            raise Refuse(f"cannot parse {mod.__name__}: {e}")
+        out += OrderScan(mod.__name__, tree).run()
+    return sorted(out)
+
+
 def coq_triple(a, b, c):
     return f"({coq_str(a)}, {coq_str(b)}, {coq_str(c)})"
 
@@ -285,6 +557,11 @@ def tables_c13(out, notes):
                + coq_list(f"({coq_str(q)}, {coq_bool(w)})" for q, w in ctx) + ".")
     out.append("Definition c13_exit_restores : list (str * bool) := "
                + coq_list(f"({coq_str(n)}, {coq_bool(b)})" for n, b in exit_behaviour()) + ".")
+    osrc = order_sources(mods)
+    out.append("Definition c13_order_sources : list (str * str * str) := "
+               + coq_list(coq_triple(q, k, e) for (q, k, e, _) in osrc) + ".")
+    for q, k, e, ln in osrc:
+        notes.append(f"c13 order source: {q} {k} {e} (line {ln})")
     notes.append(f"c13: {len(mods)} modules imported; {len(defaults)} mutable defaults, {len(globs)} distinct mutable "
                  f"module globals, {len(cattrs)} class attributes, {len(fields)} pydantic field defaults; "
                  f"{len(uses)} handler uses, {len(ctx)} logging_context constructions")
